@@ -350,6 +350,10 @@ class GriffeLoader:
 
                 # Recurse into this module, expanding wildcards there before collecting everything.
                 try:
+                    # The module can be imported under another name first (`from pkg import mod as m`,
+                    # then `from pkg.m import *`): expand the module itself, not the alias leading to it.
+                    if target.is_alias:
+                        target = target.final_target
                     if target.path not in seen:
                         self.expand_wildcards(target, external=external, seen=seen)
 
